@@ -264,7 +264,7 @@ def _small_task(task):
         return acc
     W = World(inst, acc)
     closure(W, ())
-    laws(W, full_scalars=inst.q <= 40)
+    laws(W, full_scalars=inst.q <= (40 if tier == "quick" else 140))
     return acc
 
 
